@@ -34,7 +34,8 @@ def gen_case(rng):
 def make_fn(names, defaults):
     params = ", ".join(("%s=%d" % (nm, defaults[nm])) if nm in defaults else nm for nm in names)
     ns = {}
-    exec("def fn(%s):\n    return dict(locals())\n" % params, ns)
+    # the body has local variables spelled like keys a preset dictionary may hold (q, y, z): undeclared keys must be ignored
+    exec("def fn(%s):\n    out__ = dict(locals())\n    q = y = z = None\n    return out__\n" % params, ns)
     return ns["fn"]
 
 
